@@ -39,14 +39,17 @@ def check_run_order(ctx, R="C12.order"):
         raise AnalysisError("shape not recognised: Simulation._run main loop")
     body = loops[0].body
     scen = fn.args.args[1].arg
+    # local variables are identified by what they are bound to, never by their names
+    reason = lib.local_from(fn, f"{scen}._step()", what="termination reason")
+    sched = lib.local_from(fn, "self.scheduleForAgents()", what="schedule")
     landmarks = [
         ("scenario step", _call(f"{scen}._step")),
         ("record current state", _call("self.recordCurrentState")),
         ("run monitors", _call(f"{scen}._runMonitors")),
-        ("return on termination reason", lambda n: isinstance(n, ast.If) and unparse(n.test) == "terminationReason is not None" and any(isinstance(x, ast.Return) for x in n.body) and not any("_checkSimulationTerminationConditions" in unparse(b) for b in [n])),
+        ("return on termination reason", lambda n: isinstance(n, ast.If) and _is_not_none(n.test, reason) and any(isinstance(x, ast.Return) for x in n.body)),
         ("terminate simulation when", _call(f"{scen}._checkSimulationTerminationConditions")),
         ("step limit", lambda n: isinstance(n, ast.If) and "maxSteps" in unparse(n.test) and any(isinstance(x, ast.Return) for x in n.body)),
-        ("behaviours in schedule order", lambda n: isinstance(n, ast.For) and unparse(n.iter) == "schedule"),
+        ("behaviours in schedule order", lambda n: isinstance(n, ast.For) and unparse(n.iter) == sched),
         ("log actions", _call("self.actionSequence.append")),
         ("execute actions", _call("self.executeActions")),
         ("simulator step", _call("self.step")),
@@ -108,6 +111,14 @@ def check_run_order(ctx, R="C12.order"):
         ctx.ok(R, DOC, "the manual's numbered list names the same nine steps in the same order", qualname="time step")
 
 
+def _is_not_none(test, name):
+    """`name is not None` / `None is not name` / `not name is None`."""
+    if isinstance(test, ast.UnaryOp) and isinstance(test.op, ast.Not):
+        t = test.operand
+        return isinstance(t, ast.Compare) and len(t.ops) == 1 and isinstance(t.ops[0], ast.Is) and {unparse(t.left), unparse(t.comparators[0])} == {name, "None"}
+    return isinstance(test, ast.Compare) and len(test.ops) == 1 and isinstance(test.ops[0], ast.IsNot) and {unparse(test.left), unparse(test.comparators[0])} == {name, "None"}
+
+
 def _anc_until(node, stop):
     for a in ancestors(node):
         if a is stop:
@@ -154,7 +165,8 @@ def check_scenario_step(ctx, R="C12.scenario"):
     tl = [n for n in body if isinstance(n, ast.If) and "self._timeLimitInSteps" in unparse(n.test)]
     if tl:
         t = unparse(tl[0].test)
-        if "self._elapsedTime >= self._timeLimitInSteps" in t and "self._timeLimitInSteps is not None" in t:
+        ct = lib.ctext(tl[0].test)
+        if lib.ctext_of("self._elapsedTime >= self._timeLimitInSteps") in ct and "self._timeLimitInSteps is not None" in ct:
             ctx.ok(R, tl[0], "`terminate after N`: the scenario stops at the start of the step in which elapsed >= N")
         else:
             ctx.finding(R, tl[0], "time limit comparison", f"DynamicScenario._step tests `{t}`; the documented time limit is `elapsed >= limit` (with a None check)")
@@ -166,7 +178,7 @@ def check_scenario_step(ctx, R="C12.scenario"):
         ctx.finding(R, st, "time limit conversion", "DynamicScenario._start no longer converts a time limit in seconds with `/= timestep` under _timeLimitIsInSeconds")
     inv = model.func(DS, "DynamicScenario._invokeInner")
     loops = [n for n in ast.walk(inv) if isinstance(n, ast.For) and unparse(n.iter) == "self._subScenarios"]
-    steps = [c for l in loops for c in ast.walk(l) if isinstance(c, ast.Call) and unparse(c.func) == "sub._step"]
+    steps = [c for l in loops if isinstance(l.target, ast.Name) for c in ast.walk(l) if isinstance(c, ast.Call) and unparse(c.func) == f"{l.target.id}._step"]
     if len(steps) == 1:
         ctx.ok(R, inv, "each running sub-scenario is stepped exactly once per step of its parent's compose block")
     else:
@@ -197,12 +209,21 @@ def check_once_per_step(ctx, R="C12.logs"):
         ctx.finding(R, loop, "recordCurrentState placement", "recordCurrentState is not called exactly once per iteration, unconditionally, before the first `return` of the main loop")
     acts = [i for i, s in enumerate(loop.body) if any(isinstance(n, ast.Call) and unparse(n.func) == "self.actionSequence.append" for n in ast.walk(s))]
     top_rets = [i for i, s in enumerate(loop.body) if isinstance(s, ast.If) and any(isinstance(n, ast.Return) for n in s.body)]
-    if len(acts) == 1 and isinstance(loop.body[acts[0]], ast.Expr) and all(i < acts[0] for i in top_rets) and unparse(loop.body[acts[0]].value.args[0]) == "allActions":
+    executed = {unparse(c.args[0]) for c in ast.walk(loop) if isinstance(c, ast.Call) and unparse(c.func) == "self.executeActions" and c.args}
+    if (
+        len(acts) == 1
+        and isinstance(loop.body[acts[0]], ast.Expr)
+        and all(i < acts[0] for i in top_rets)
+        and isinstance(loop.body[acts[0]].value, ast.Call)
+        and len(loop.body[acts[0]].value.args) == 1
+        and unparse(loop.body[acts[0]].value.args[0]) in executed
+    ):
         ctx.ok(R, loop.body[acts[0]], "one action-log entry per executed step, after all termination returns")
     else:
-        ctx.finding(R, loop, "actionSequence placement", "actionSequence.append(allActions) is not executed exactly once per iteration after the termination tests")
-    sched = [s for s in loop.body if isinstance(s, ast.For) and unparse(s.iter) == "schedule"]
-    if sched:
+        ctx.finding(R, loop, "actionSequence placement", "the action log is not appended (with the very actions handed to executeActions) exactly once per iteration after the termination tests")
+    svar = lib.local_from(fn, "self.scheduleForAgents()", what="schedule")
+    sched = [s for s in loop.body if isinstance(s, ast.For) and unparse(s.iter) == svar]
+    if sched and isinstance(sched[0].target, ast.Name):
         v = sched[0].target.id
         steps = [c for c in ast.walk(sched[0]) if isinstance(c, ast.Call) and unparse(c.func) == f"{v}.behavior._step"]
         inner = any(isinstance(a, (ast.For, ast.While)) for c in steps for a in _anc_until(c, sched[0]))
@@ -212,8 +233,8 @@ def check_once_per_step(ctx, R="C12.logs"):
             ctx.finding(R, sched[0], "behaviour stepping", f"agent behaviours are stepped {len(steps)} times per iteration of the schedule loop")
     else:
         ctx.finding(R, loop, "schedule loop", "no loop over `schedule` in Simulation._run")
-    defs = [s for s in loop.body if isinstance(s, ast.Assign) and unparse(s.targets[0]) == "schedule"]
-    chk = [s for s in loop.body if isinstance(s, ast.If) and "set(self.agents)" in unparse(s.test) and "set(schedule)" in unparse(s.test) and any(isinstance(x, ast.Raise) for x in s.body)]
+    defs = [s for s in loop.body if isinstance(s, ast.Assign) and unparse(s.targets[0]) == svar]
+    chk = [s for s in loop.body if isinstance(s, ast.If) and "set(self.agents)" in unparse(s.test) and f"set({svar})" in unparse(s.test) and any(isinstance(x, ast.Raise) for x in s.body)]
     if defs and unparse(defs[0].value) == "self.scheduleForAgents()" and chk:
         ctx.ok(R, chk[0], "the simulator's schedule is checked to contain exactly the agents")
     else:
